@@ -516,6 +516,12 @@ func (s *Stack) ResolveID(class string) string {
 			return ids[len(ids)-1-k]
 		}
 		return "11111111-1111-1111-1111-111111111111"
+	case class == "upper":
+		// the current id in another letter case: a different id as far as the emulator is concerned
+		if len(s.lastReq) == 0 {
+			return "AAAAAAAA-0000-0000-0000-000000000000"
+		}
+		return strings.ToUpper(s.lastReq[len(s.lastReq)-1])
 	case class == "unknown":
 		return "99999999-9999-9999-9999-999999999999"
 	case class == "empty":
